@@ -112,10 +112,10 @@ def generate(seed, prop):
     faulty = rng.random() < 0.45
     if mode == "single":
         recs = [draw_recording(rng, 0)]
-        ops = [{"op": "read_single", "rec": 0}]
+        ops = [{"op": "read_single", "rec": 0, "kw": rng.choice(["none", "none", "none", "empty", "format"])}]
     else:
         n = rng.randint(1, 4)
-        style_k = rng.choice(["none", "dict", "list"])
+        style_k = rng.choice(["none", "dict", "list", "list", "empty"])
         style_d = rng.choice(["none", "scalar", "list"])
         recs = []
         for i in range(n):
@@ -135,7 +135,9 @@ def generate(seed, prop):
         trims = [rng.randint(10, max(11, r["n"] - 2)) if (style_k == "list" and r["fmt"].startswith("mseed") and rng.random() < 0.6) else None
                  for r in recs]
         ops = [{"op": "read_many", "kwargs_style": style_k, "dfn_style": style_d, "trims": trims,
-                "unwrap_single": rng.random() < 0.5, "bare": rng.random() < 0.3}]
+                "unwrap_single": rng.random() < 0.5, "bare": rng.random() < 0.3,
+                # reader options that do not name the format (obspy detects it): legal, and every reader sees them
+                "noformat": rng.random() < 0.35}]
     faults = []
     if faulty:
         for _ in range(rng.choice([1, 1, 1, 2])):
@@ -612,7 +614,15 @@ def run_op(ctx, st, op, H):
         arm_eio(st, entry)
         got, exc = None, None
         try:
-            got = H.read_single(fname_arg(entry), degrees_from_north=rec["dfn"])
+            kwm = op.get("kw", "none")
+            if kwm == "none":
+                got = H.read_single(fname_arg(entry), degrees_from_north=rec["dfn"])
+            else:
+                okw = {} if kwm == "empty" else ({"format": "MSEED"} if rec["fmt"].startswith("mseed") else
+                                                 {"format": "SAC"} if rec["fmt"].startswith("sac") else
+                                                 {"format": "GCF"} if rec["fmt"] == "gcf" else {})
+                ctx.probe("reader_options_without_format" if not okw else "reader_options_with_format")
+                got = H.read_single(fname_arg(entry), obspy_read_kwargs=okw, degrees_from_north=rec["dfn"])
         except Exception as e:                               # noqa
             exc = e
         finally:
@@ -633,18 +643,20 @@ def run_op(ctx, st, op, H):
         from obspy import UTCDateTime
         t0 = UTCDateTime(2020, 1, 1)
 
+        noformat = bool(op.get("noformat"))
+
         def kw_for(e, trim):
             fmt = e["spec"]["fmt"]
             if fmt.startswith("mseed"):
-                kw = {"format": "MSEED"}
+                kw = {} if noformat else {"format": "MSEED"}
                 if trim is not None:
                     kw["endtime"] = t0 + (trim + 0.5) / e["spec"]["rate"]
                 return kw
             if fmt.startswith("sac"):
-                return {"format": "SAC"}
+                return {} if noformat else {"format": "SAC"}
             if fmt == "gcf":
-                return {"format": "GCF"}
-            return None
+                return {} if noformat else {"format": "GCF"}
+            return {} if noformat else None
         # obspy trims each miniSEED file by its own record/sample rules; when that leaves the three
         # components with different lengths the option is not used for that recording
         trims = list(op["trims"])
@@ -667,7 +679,12 @@ def run_op(ctx, st, op, H):
             kwargs = None
         elif ks == "dict":
             kwargs = {"format": "MSEED"}
+        elif ks == "empty":
+            kwargs = {}
+            ctx.probe("reader_options_without_format")
         else:
+            if noformat:
+                ctx.probe("reader_options_without_format")
             kwargs = [kw_for(e, t) for e, t in zip(entries, op["trims"])]
         if ds == "none":
             dfn = None
